@@ -418,13 +418,24 @@ func runProp(prop, modeName, tier string, seed uint64, outPath, replayDir, known
 							}
 							return len(m2) == 0 && len(d2) > 0 && signature(prop, d2) == sig
 						}
-						keep = ddmin(keep, pred, 200)
-						t, _ = j.spec.Run(keep)
-						v, _ = drv.Check(t)
-						diffs, mons = relevant(ps, v)
-						lines = diffs
-						if kind == "monitor" {
-							lines = mons
+						keep2 := ddmin(keep, pred, 200)
+						t2, _ := j.spec.Run(keep2)
+						if t2 != nil {
+							if v2, err := drv.Check(t2); err == nil {
+								d2, m2 := relevant(ps, v2)
+								l2 := d2
+								if kind == "monitor" {
+									l2 = m2
+								}
+								// keep the shrunk trace only if it still shows the complaint; otherwise the
+								// original failing trace is what gets reported (a failure that does not
+								// reproduce on re-execution is timing dependent)
+								if len(l2) > 0 {
+									keep, t, v, lines = keep2, t2, v2, l2
+								} else {
+									lines = append(lines, "(not reproduced when the case was executed again: timing dependent)")
+								}
+							}
 						}
 					}
 					caseNo := j.idx
